@@ -3,9 +3,18 @@
 import json, sys
 from pathlib import Path
 pid = sys.argv[1]
+round2 = len(sys.argv) > 2 and sys.argv[2] == "2"
 props = {json.loads(l)["id"]: json.loads(l) for l in (Path(__file__).resolve().parents[1] / "properties.jsonl").read_text().splitlines() if l.strip()}
 p = props[pid]
 wt = f"/tmp/seed_{pid}"
+prev = ""
+if round2:
+    import glob
+    items = []
+    for f in sorted(glob.glob(str(Path(__file__).resolve().parents[1] / "seeded" / f"{pid}-*" / "meta.json"))):
+        m = json.loads(open(f).read())
+        items.append("  - " + " ".join(m.get("summary", "").split())[:400])
+    prev = "\n\nOther people have ALREADY proposed the following changes for this property; do NOT repeat them or close variants — find different mechanisms, different code sites (including helper modules the anchored code depends on), different configurations:\n" + "\n".join(items) + "\nPrefer this time: two cooperating edits that each look harmless alone; a refactoring that is correct for the common configuration but wrong for a rare one; state that is only wrong after a specific multi-step history.\n"
 print(f"""You are testing how well an (unseen) verification effort can detect regressions in the Python hardware-construction library kuznia-rdzeni/transactron (a library for Amaranth HDL). You have your own scratch git worktree of the repository at {wt} (work ONLY there; never touch /repo or /verif and do not read anything under /verif). The library's python environment is /venv/bin/python (amaranth and the test dependencies are installed; `transactron` is installed editable from /repo, so to import YOUR worktree's copy you MUST put it first on the path: `cd {wt} && PYTHONPATH={wt} /venv/bin/python …`, and run tests as `cd {wt} && PYTHONPATH={wt} /venv/bin/python -m pytest -q -p no:cacheprovider test/<files> -n 4`; verify with `python -c "import transactron; print(transactron.__file__)"` that {wt} is what gets imported).
 
 Here is a semantic property of the library that should always hold:
@@ -14,7 +23,7 @@ Here is a semantic property of the library that should always hold:
   statement: {p['statement']}
   quantified over: {p['quantifier']['text']}
   code anchors: {', '.join(p['anchors']['files'])}
-
+{prev}
 YOUR TASK: produce TWO different, realistic changes to the library source (each a separate small patch against the worktree's HEAD, touching only files under transactron/) that BREAK this property while the code still imports/elaborates and the EXISTING test suite still passes. Think of plausible maintainer mistakes: an off-by-one, a dropped or weakened condition, a swapped priority/order, a wrong reset, a refactoring that loses a corner case. IMPORTANT: prefer changes that need something specific to manifest — a particular interleaving, a multi-step sequence of operations, an unusual configuration/input, a rare simultaneous combination, or two cooperating sites that each look fine alone — NOT ones that ordinary use exposes at once (those would already be caught by the existing tests). For each change:
  1. write the patch as `git diff` output to {wt}/seed_out/<n>/patch.diff (n = 1, 2);
  2. write a demonstration {wt}/seed_out/<n>/demo.py: a standalone script (run as `cd {wt} && PYTHONPATH={wt} /venv/bin/python seed_out/<n>/demo.py`) that exercises the real library (simulate with amaranth's simulator / transactron.testing helpers, or call the function) and exits non-zero with a clear message when the property is violated — it must FAIL with the change applied and PASS on the unmodified worktree;
